@@ -4,6 +4,7 @@ import asyncio
 from typing import TYPE_CHECKING, Iterable
 
 from repid._processor import _Processor
+from repid._utils import _CurrentDelivery
 from repid.health_check_server import HealthCheckStatus
 from repid.logger import logger
 from repid.main import Repid
@@ -78,6 +79,8 @@ class _Runner(_Processor):
         payload: str,
         parameters: ParametersT,
     ) -> None:
+        delivery = object()
+        _CurrentDelivery.set(delivery)  # the processing task inherits the context
         process_task = asyncio.create_task(self.process(actor, key, payload, parameters))
         await asyncio.wait(
             {self.cancel_event_task, process_task},
@@ -88,13 +91,13 @@ class _Runner(_Processor):
                 process_task.cancel()
                 # a report to the broker which has been started runs to its end
                 await asyncio.wait({process_task})
-                if key.id_ not in self._disposing:
+                if delivery not in self._disposing:
                     # nothing has disposed of the message: give it back
                     await self._conn.message_broker.reject(key)
                 return
             await process_task
         finally:
-            self._disposing.discard(key.id_)
+            self._disposing.discard(delivery)
 
     async def _run_consumer(
         self,
